@@ -2,14 +2,20 @@ package objstorageprovider
 
 // C41 driver (engine "proto"), mode C without hooks.  N real providers share one
 // in-memory remote.Storage; every provider sees it through its own wrapper, and
-// every wrapper call that reads or changes the store (CreateObject.Close, Size,
-// Delete, List) first blocks at a gate.  The scheduler releases exactly one call
-// at a time, either in the order of a TLC-generated schedule (every interleaving
-// of SharedObj.tla's state graph) or in seeded random order (exploration), and
-// logs the call, its result, the store contents after it, every API return, and
-// - after every step - which of the providers that successfully created/attached
-// the object (and have not called Remove) can still open and read it.  Go only
-// executes and records; TLC (SharedObjTrace.tla) judges the trace.
+// every wrapper operation that reads or changes the store (an upload =
+// CreateObject + Write* + Close, Size, Delete, List) first blocks at a gate.  The
+// scheduler releases exactly one operation at a time, either in the order of a
+// TLC-generated schedule (interleavings of SharedObj.tla's state graph, which
+// include FAILING operations: the schedule names the provider whose next
+// operation fails and, for an upload, whether the error surfaces at
+// CreateObject, Write or Close) or in seeded random order with seeded random
+// failures (exploration), and logs the operation, its result, the store contents
+// after it, every API return, and - after every step - which of the providers
+// that successfully created/attached the object (and have not called Remove) can
+// still open and read it, together with the markers present in the store.
+// Provider 0's Create/Write/Finish is part of the schedule.  A Remove that
+// returned an error is called again.  Go only executes and records; TLC
+// (SharedObjTrace.tla) judges the trace.
 
 import (
 	"bufio"
@@ -34,13 +40,15 @@ import (
 type vProtoSOEvent struct {
 	p       int
 	typ     string // arrive | done | callret
-	kind    string // store call kind
+	kind    string // store operation kind
 	name    string
 	found   bool
+	fail    bool   // the operation was made to fail
+	via     string // where the injected error surfaced: create | write | close | fail
 	lst     []string
 	what    string
 	err     error
-	release chan struct{}
+	release chan string // the scheduler's decision: "" proceed, else the way the operation fails
 }
 
 type vProtoSOGate struct {
@@ -48,19 +56,21 @@ type vProtoSOGate struct {
 	ev   chan vProtoSOEvent
 }
 
-func (g *vProtoSOGate) enter(p int, kind, name string) bool {
+var errVProtoSOInjected = fmt.Errorf("verif: injected transient remote storage error")
+
+// enter parks the operation at the gate; plan is the scheduler's decision for it.
+func (g *vProtoSOGate) enter(p int, kind, name string) (gated bool, plan string) {
 	if g.free {
-		return false
+		return false, ""
 	}
-	rel := make(chan struct{})
+	rel := make(chan string, 1)
 	g.ev <- vProtoSOEvent{p: p, typ: "arrive", kind: kind, name: name, release: rel}
-	<-rel
-	return true
+	return true, <-rel
 }
 
-func (g *vProtoSOGate) leave(gated bool, p int, kind, name string, found bool, lst []string) {
+func (g *vProtoSOGate) leave(gated bool, p int, kind, name string, found bool, lst []string, via string) {
 	if gated {
-		g.ev <- vProtoSOEvent{p: p, typ: "done", kind: kind, name: name, found: found, lst: lst}
+		g.ev <- vProtoSOEvent{p: p, typ: "done", kind: kind, name: name, found: found, lst: lst, fail: via != "", via: via}
 	}
 }
 
@@ -75,30 +85,45 @@ var _ remote.Storage = (*vProtoSOStore)(nil)
 
 func (s *vProtoSOStore) Close() error { return nil }
 func (s *vProtoSOStore) ReadObject(ctx context.Context, name string) (remote.ObjectReader, int64, error) {
-	gated := s.g.enter(s.p, "read", name)
+	gated, plan := s.g.enter(s.p, "read", name)
+	if plan != "" {
+		s.g.leave(gated, s.p, "read", name, false, nil, "fail")
+		return nil, 0, errVProtoSOInjected
+	}
 	r, sz, err := s.inner.ReadObject(ctx, name)
-	s.g.leave(gated, s.p, "read", name, err == nil, nil)
+	s.g.leave(gated, s.p, "read", name, err == nil, nil, "")
 	return r, sz, err
 }
 
+// An upload parks at CreateObject and takes effect at Close, within the same scheduler step (the real
+// code performs no other store operation in between).
 type vProtoSOWriter struct {
-	s    *vProtoSOStore
-	name string
-	buf  bytes.Buffer
-	done bool
+	s     *vProtoSOStore
+	name  string
+	kind  string
+	buf   bytes.Buffer
+	gated bool
+	plan  string
+	done  bool
 }
 
-func (w *vProtoSOWriter) Write(b []byte) (int, error) { return w.buf.Write(b) }
+func (w *vProtoSOWriter) Write(b []byte) (int, error) {
+	if w.plan == "write" && !w.done {
+		w.done = true
+		w.s.g.leave(w.gated, w.s.p, w.kind, w.name, false, nil, "write")
+		return 0, errVProtoSOInjected
+	}
+	return w.buf.Write(b)
+}
 func (w *vProtoSOWriter) Close() error {
 	if w.done {
 		return nil
 	}
 	w.done = true
-	kind := "createobj"
-	if strings.Contains(w.name, ".ref.") {
-		kind = "createref"
+	if w.plan != "" {
+		w.s.g.leave(w.gated, w.s.p, w.kind, w.name, false, nil, "close")
+		return errVProtoSOInjected
 	}
-	gated := w.s.g.enter(w.s.p, kind, w.name)
 	iw, err := w.s.inner.CreateObject(w.name)
 	if err == nil {
 		_, err = iw.Write(w.buf.Bytes())
@@ -106,16 +131,29 @@ func (w *vProtoSOWriter) Close() error {
 			err = cerr
 		}
 	}
-	w.s.g.leave(gated, w.s.p, kind, w.name, err == nil, nil)
+	w.s.g.leave(w.gated, w.s.p, w.kind, w.name, err == nil, nil, "")
 	return err
 }
 func (s *vProtoSOStore) CreateObject(name string) (io.WriteCloser, error) {
-	return &vProtoSOWriter{s: s, name: name}, nil
+	kind := "createobj"
+	if strings.Contains(name, ".ref.") {
+		kind = "createref"
+	}
+	gated, plan := s.g.enter(s.p, kind, name)
+	if plan == "create" {
+		s.g.leave(gated, s.p, kind, name, false, nil, "create")
+		return nil, errVProtoSOInjected
+	}
+	return &vProtoSOWriter{s: s, name: name, kind: kind, gated: gated, plan: plan}, nil
 }
 func (s *vProtoSOStore) List(prefix, delimiter string) ([]string, error) {
-	gated := s.g.enter(s.p, "list", prefix)
+	gated, plan := s.g.enter(s.p, "list", prefix)
+	if plan != "" {
+		s.g.leave(gated, s.p, "list", prefix, false, nil, "fail")
+		return nil, errVProtoSOInjected
+	}
 	l, err := s.inner.List(prefix, delimiter)
-	s.g.leave(gated, s.p, "list", prefix, err == nil, l)
+	s.g.leave(gated, s.p, "list", prefix, err == nil, l, "")
 	return l, err
 }
 func (s *vProtoSOStore) Delete(name string) error {
@@ -123,15 +161,23 @@ func (s *vProtoSOStore) Delete(name string) error {
 	if strings.Contains(name, ".ref.") {
 		kind = "delref"
 	}
-	gated := s.g.enter(s.p, kind, name)
+	gated, plan := s.g.enter(s.p, kind, name)
+	if plan != "" {
+		s.g.leave(gated, s.p, kind, name, false, nil, "fail")
+		return errVProtoSOInjected
+	}
 	err := s.inner.Delete(name)
-	s.g.leave(gated, s.p, kind, name, err == nil, nil)
+	s.g.leave(gated, s.p, kind, name, err == nil, nil, "")
 	return err
 }
 func (s *vProtoSOStore) Size(name string) (int64, error) {
-	gated := s.g.enter(s.p, "size", name)
+	gated, plan := s.g.enter(s.p, "size", name)
+	if plan != "" {
+		s.g.leave(gated, s.p, "size", name, false, nil, "fail")
+		return 0, errVProtoSOInjected
+	}
 	sz, err := s.inner.Size(name)
-	s.g.leave(gated, s.p, "size", name, err == nil, nil)
+	s.g.leave(gated, s.p, "size", name, err == nil, nil, "")
 	return sz, err
 }
 func (s *vProtoSOStore) IsNotExistError(err error) bool { return s.inner.IsNotExistError(err) }
@@ -145,12 +191,14 @@ type vProtoSORun struct {
 	cmd     []chan func() (string, error)
 	pending []*vProtoSOEvent // provider blocked at the gate
 	incall  []bool
-	stage   []int  // 0 idle, 1 backed, 2 attach called, 3 attached (have), 4 remove called, 5 finished
+	stage   []int  // 0 idle, 1 backed, 2 create/attach called, 3 have, 4 remove called, 5 finished, 6 Remove returned an error (may be called again)
 	attOK   []bool // create/attach returned success and Remove not yet called
 	backing [][]byte
 	tr      *bufio.Writer
 	events  int
 	data    []byte
+	faults  int
+	lost    int // released operations that never reported completion
 }
 
 func vProtoSOFileNum(p int) base.DiskFileNum { return base.DiskFileNum(10 + p) }
@@ -236,19 +284,6 @@ func vProtoSOOpen(n int, tr *bufio.Writer) *vProtoSORun {
 	r.stage = make([]int, n)
 	r.attOK = make([]bool, n)
 	r.backing = make([][]byte, n)
-	// provider 0 creates the object (object, then its own ref marker)
-	w, _, err := r.prov[0].Create(context.Background(), base.FileTypeTable, vProtoSOFileNum(0), objstorage.CreateOptions{PreferSharedStorage: true})
-	if err != nil {
-		panic(err)
-	}
-	if err := w.Write(append([]byte(nil), r.data...)); err != nil {
-		panic(err)
-	}
-	if err := w.Finish(); err != nil {
-		panic(err)
-	}
-	r.stage[0] = 3
-	r.attOK[0] = true
 	r.g.free = false
 	return r
 }
@@ -258,7 +293,7 @@ func (r *vProtoSORun) close() {
 	r.g.free = true
 	for p := range r.pending {
 		if r.pending[p] != nil {
-			close(r.pending[p].release)
+			r.pending[p].release <- ""
 			r.pending[p] = nil
 			r.incall[p] = true
 		}
@@ -268,6 +303,8 @@ func (r *vProtoSORun) close() {
 			ev := <-r.g.ev
 			if ev.typ == "callret" {
 				r.incall[ev.p] = false
+			} else if ev.typ == "arrive" {
+				ev.release <- ""
 			}
 		}
 	}
@@ -277,9 +314,8 @@ func (r *vProtoSORun) close() {
 	}
 }
 
-// waitFor waits until provider p is parked at the gate or its API call returned.
-func (r *vProtoSORun) waitFor(p int) {
-	ev := <-r.g.ev
+// handle records that provider p is parked at the gate or that its API call returned.
+func (r *vProtoSORun) handle(p int, ev vProtoSOEvent) {
 	if ev.p != p {
 		panic(fmt.Sprintf("event from provider %d while only %d may run", ev.p, p))
 	}
@@ -290,7 +326,7 @@ func (r *vProtoSORun) waitFor(p int) {
 		r.incall[p] = false
 		ok := ev.err == nil
 		switch ev.what {
-		case "attach":
+		case "create", "attach":
 			if ok {
 				r.stage[p] = 3
 				r.attOK[p] = true
@@ -298,7 +334,11 @@ func (r *vProtoSORun) waitFor(p int) {
 				r.stage[p] = 5
 			}
 		case "remove":
-			r.stage[p] = 5
+			if ok {
+				r.stage[p] = 5
+			} else {
+				r.stage[p] = 6
+			}
 		}
 		e := ""
 		if ev.err != nil {
@@ -313,28 +353,57 @@ func (r *vProtoSORun) waitFor(p int) {
 	}
 }
 
-// canAct: provider p has a next step (a parked store call, or a next API call whose precondition holds)
+// waitFor waits until provider p is parked at the gate or its API call returned.
+func (r *vProtoSORun) waitFor(p int) { r.handle(p, <-r.g.ev) }
+
+// canAct: provider p has a next step (a parked store operation, or a next API call whose precondition holds)
 func (r *vProtoSORun) canAct(p int) bool {
 	if r.pending[p] != nil {
 		return true
 	}
 	switch r.stage[p] {
 	case 0:
-		return p > 0 && r.attOK[p-1]
-	case 1, 3:
+		return p == 0 || r.attOK[p-1]
+	case 1, 3, 6:
 		return true
 	}
 	return false
 }
 
-// step performs provider p's next step.  Returns false when p has nothing to do.
-func (r *vProtoSORun) step(p int) bool {
+func vProtoSOUpload(kind string) bool { return kind == "createobj" || kind == "createref" }
+
+// step performs provider p's next step; want = "" (the operation succeeds) or the schedule's failing
+// action: FailCreate / FailWrite / FailClose (uploads), Fail (other operations), FailAny (exploration:
+// vias picks the call at which an upload's error surfaces).  Returns false when p has nothing to do.
+func (r *vProtoSORun) step(p int, want string, vias func(kind string) string) bool {
 	if !r.canAct(p) {
 		return false
 	}
 	if r.pending[p] == nil {
 		switch r.stage[p] {
-		case 0: // local: obtain the backing from p-1 (handle closed immediately so that isProtected does not mask the race)
+		case 0:
+			if p == 0 {
+				// provider 0 creates the object: Create (CreateObject), Write, Finish (Close of the object, then the own ref marker)
+				r.stage[p] = 2
+				r.incall[p] = true
+				r.emit(map[string]any{"op": "call", "p": p, "what": "create"})
+				r.cmd[p] <- func() (string, error) {
+					w, _, err := r.prov[0].Create(context.Background(), base.FileTypeTable, vProtoSOFileNum(0), objstorage.CreateOptions{PreferSharedStorage: true})
+					if err != nil {
+						return "create", err
+					}
+					if err := w.Write(append([]byte(nil), r.data...)); err != nil {
+						w.Abort()
+						return "create", err
+					}
+					return "create", w.Finish()
+				}
+				break
+			}
+			// local: obtain the backing from p-1 (handle closed immediately so that isProtected does not mask the race)
+			if want != "" {
+				return false
+			}
 			q := r.prov[p-1]
 			meta, err := q.Lookup(base.FileTypeTable, vProtoSOFileNum(p-1))
 			if err != nil {
@@ -364,7 +433,7 @@ func (r *vProtoSORun) step(p int) bool {
 					FileNum: vProtoSOFileNum(p), FileType: base.FileTypeTable, Backing: b}})
 				return "attach", err
 			}
-		case 3:
+		case 3, 6:
 			r.stage[p] = 4
 			r.attOK[p] = false
 			r.incall[p] = true
@@ -380,31 +449,57 @@ func (r *vProtoSORun) step(p int) bool {
 			return true
 		}
 	}
-	// release the parked store call
+	// release the parked store operation
 	pe := r.pending[p]
 	r.pending[p] = nil
-	close(pe.release)
-	done := <-r.g.ev
-	if done.p != p || done.typ != "done" {
-		panic("expected done event")
+	plan := ""
+	if want != "" {
+		r.faults++
+		plan = "fail"
+		if vProtoSOUpload(pe.kind) {
+			switch want {
+			case "FailCreate":
+				plan = "create"
+			case "FailWrite":
+				plan = "write"
+			case "FailAny":
+				plan = vias(pe.kind)
+			default:
+				plan = "close"
+			}
+		}
 	}
+	pe.release <- plan
+	done := <-r.g.ev
+	closed := done.p == p && done.typ == "done"
 	obj, refs := r.storeState()
 	arg := -1
-	if done.kind != "list" {
-		arg = vProtoSORefOwner(done.name)
+	if pe.kind != "list" {
+		arg = vProtoSORefOwner(pe.name)
 	}
 	lst := []int{}
-	for _, n := range done.lst {
-		lst = append(lst, vProtoSORefOwner(n))
+	if closed {
+		for _, n := range done.lst {
+			lst = append(lst, vProtoSORefOwner(n))
+		}
 	}
 	sort.Ints(lst)
-	r.emit(map[string]any{"op": "step", "p": p, "kind": done.kind, "arg": arg, "found": done.found, "lst": lst, "obj": obj, "refs": refs})
-	r.waitFor(p) // parked at its next store call, or the API call returned (ret event)
+	// closed = false: the provider went on (next operation / API return) without completing the released one
+	// (e.g. an upload whose writer was never closed)
+	r.emit(map[string]any{"op": "step", "p": p, "kind": pe.kind, "arg": arg, "found": closed && done.found, "fail": plan != "",
+		"via": done.via, "closed": closed, "lst": lst, "obj": obj, "refs": refs})
+	if closed {
+		r.waitFor(p) // parked at its next store operation, or the API call returned (ret event)
+	} else {
+		r.lost++
+		r.handle(p, done)
+	}
 	r.observe()
 	return true
 }
 
-// observe: every provider whose create/attach succeeded and that has not called Remove re-reads the object
+// observe: every provider whose create/attach succeeded and that has not called Remove re-reads the object;
+// the store contents (object, markers) are recorded next to it
 func (r *vProtoSORun) observe() {
 	r.g.free = true
 	tested, readable := []int{}, []int{}
@@ -424,8 +519,9 @@ func (r *vProtoSORun) observe() {
 			readable = append(readable, p)
 		}
 	}
+	obj, refs := r.storeState()
 	r.g.free = false
-	r.emit(map[string]any{"op": "obs", "tested": tested, "readable": readable})
+	r.emit(map[string]any{"op": "obs", "tested": tested, "readable": readable, "obj": obj, "refs": refs})
 }
 
 func (r *vProtoSORun) complete() bool {
@@ -438,7 +534,7 @@ func (r *vProtoSORun) complete() bool {
 }
 
 // TestVProtoSharedObj: VERIF_OUT, VERIF_N, VERIF_SCHEDULES (file: one JSON [[action, p]...] per line),
-// VERIF_EXPLORE (number of random-order runs), VERIF_SEED.
+// VERIF_EXPLORE (number of random-order runs), VERIF_MAXFAULTS (failing operations per exploration run), VERIF_SEED.
 func TestVProtoSharedObj(t *testing.T) {
 	out := os.Getenv("VERIF_OUT")
 	if out == "" {
@@ -452,7 +548,7 @@ func TestVProtoSharedObj(t *testing.T) {
 	}
 	n := geti("VERIF_N", 3)
 	seed := uint64(geti("VERIF_SEED", 1))
-	forced, followed, nofollow := 0, 0, 0
+	forced, followed, nofollow, forcedFaults, lost := 0, 0, 0, 0, 0
 	if sf := os.Getenv("VERIF_SCHEDULES"); sf != "" {
 		f, err := os.Create(out + "/forced.ndjson")
 		if err != nil {
@@ -476,7 +572,11 @@ func TestVProtoSharedObj(t *testing.T) {
 			ok := true
 			for _, st := range sched {
 				p := int(st[1].(float64))
-				if !r.step(p) {
+				want := ""
+				if a := st[0].(string); strings.HasPrefix(a, "Fail") {
+					want = a
+				}
+				if !r.step(p, want, nil) {
 					// the real providers cannot follow the schedule: provider p has nothing to do
 					r.emit(map[string]any{"op": "nofollow", "p": p, "want": st[0]})
 					ok = false
@@ -486,11 +586,11 @@ func TestVProtoSharedObj(t *testing.T) {
 			complete := r.complete()
 			if ok && !complete {
 				// the real providers have more store calls than the spec: release them in index order, logged
-				for again := true; again; {
+				for again, k := true, 0; again && k < 100; k++ {
 					again = false
 					for p := 0; p < n; p++ {
 						if r.pending[p] != nil {
-							r.step(p)
+							r.step(p, "", nil)
 							again = true
 						}
 					}
@@ -498,6 +598,8 @@ func TestVProtoSharedObj(t *testing.T) {
 				ok = false
 			}
 			r.emit(map[string]any{"op": "end", "complete": complete})
+			forcedFaults += r.faults
+			lost += r.lost
 			r.close()
 			forced++
 			if ok {
@@ -511,7 +613,10 @@ func TestVProtoSharedObj(t *testing.T) {
 		f.Close()
 	}
 	explore := geti("VERIF_EXPLORE", 0)
+	maxFaults := geti("VERIF_MAXFAULTS", 2)
 	distinct := map[string]bool{}
+	exploreFaults, exploreFaulty := 0, 0
+	vias := map[string]int{}
 	if explore > 0 {
 		f, err := os.Create(out + "/explore.ndjson")
 		if err != nil {
@@ -519,10 +624,24 @@ func TestVProtoSharedObj(t *testing.T) {
 		}
 		w := bufio.NewWriterSize(f, 1<<20)
 		rng := rand.New(rand.NewPCG(seed, 41))
+		pick := func(kind string) string {
+			v := []string{"create", "close"}
+			if kind == "createobj" {
+				v = append(v, "write")
+			}
+			x := v[rng.IntN(len(v))]
+			vias[kind+"/"+x]++
+			return x
+		}
 		for i := 0; i < explore; i++ {
 			r := vProtoSOOpen(n, w)
 			r.emit(map[string]any{"op": "start", "n": n, "mode": "explore", "id": i})
 			r.observe()
+			// every other run is fault-free; the others get up to maxFaults failing operations
+			budget := 0
+			if i%2 == 1 {
+				budget = 1 + rng.IntN(maxFaults)
+			}
 			var order []byte
 			for steps := 0; steps < 200; steps++ {
 				var can []int
@@ -535,18 +654,33 @@ func TestVProtoSharedObj(t *testing.T) {
 					break
 				}
 				p := can[rng.IntN(len(can))]
+				want := ""
+				// a local step (obtaining the backing) cannot fail
+				local := r.pending[p] == nil && r.stage[p] == 0 && p > 0
+				if !local && r.faults < budget && rng.IntN(5) == 0 {
+					want = "FailAny"
+				}
 				order = append(order, byte('0'+p))
-				r.step(p)
+				if want != "" {
+					order = append(order, '!')
+				}
+				r.step(p, want, pick)
 			}
 			distinct[string(order)] = true
 			r.emit(map[string]any{"op": "end", "complete": r.complete()})
+			exploreFaults += r.faults
+			if r.faults > 0 {
+				exploreFaulty++
+			}
+			lost += r.lost
 			r.close()
 		}
 		w.Flush()
 		f.Close()
 	}
 	st, _ := json.Marshal(map[string]any{"forced": forced, "followed": followed, "not_followed": nofollow, "explore_runs": explore,
-		"explore_distinct_orders": len(distinct), "n": n})
+		"explore_distinct_orders": len(distinct), "n": n, "forced_failing_ops": forcedFaults, "explore_failing_ops": exploreFaults,
+		"explore_runs_with_failures": exploreFaulty, "explore_upload_failure_sites": vias, "ops_released_but_never_completed": lost})
 	fmt.Printf("DRIVER-STATS %s\n", st)
 	fmt.Printf("DRIVER-DONE\n")
 }
